@@ -22,6 +22,9 @@ pub enum SrcKind {
     LetSortedTwoReaders,
     Literal,
     SubClosed,
+    /// a let-table `q` is defined but the main pipeline starts from the closed `u` relation: `q` is first
+    /// read by a later step (append / join)
+    LetSide,
 }
 
 #[derive(Clone, Copy, Debug, PartialEq, Eq)]
@@ -326,6 +329,9 @@ pub fn menu(st: &GenState, prog: &Program, cfg: &GenCfg) -> Vec<Step> {
     // both sides must have a column list the compiler knows, or both be bare tables
     if (core || naming) && f.cols.len() == 2 && f.open.is_empty() {
         m.push(Step::Append(Source::Sub(Box::new(closed_u()))));
+        if prog.lets.len() == 1 {
+            m.push(Step::Append(Source::Let(0)));
+        }
     }
     let bare_t = f.open.len() == 1 && f.inputs.len() == 1 && f.cols.len() == 2 && f.cols.iter().all(|c| c.input.is_some());
     if core && bare_t {
@@ -366,6 +372,10 @@ pub fn start(kind: SrcKind) -> (Program, Pipeline) {
         }
         SrcKind::Literal => lit_source(),
         SrcKind::SubClosed => Source::Sub(Box::new(closed_t())),
+        SrcKind::LetSide => {
+            prog.lets.push(("q".into(), closed_t()));
+            Source::Sub(Box::new(closed_u()))
+        }
     };
     (prog, Pipeline { src, steps: vec![] })
 }
